@@ -126,6 +126,7 @@ pub fn run_case(case: &Sx) -> Sx {
 pub fn main(a: &Args) {
     match a.extra.get(0).map(|s| s.as_str()) {
         Some("gen") => {
+            if a.extra.iter().any(|x| x == "lazy") { crate::eg::MOTIF_BIAS.store(7, std::sync::atomic::Ordering::Relaxed); }
             let mut lines: Vec<String> = crate::eg::gen(a).into_iter().map(|l| l.replacen("(eg ", "(egs ", 1)).collect();
             if a.extra.iter().any(|x| x == "an") {
                 // the same histories on e-graphs that carry an analysis; half of them get a parent that uses both classes of a
